@@ -207,9 +207,9 @@ def worker(case, led):
         led.check(close(Hm, Hd), "post:Mpo.__init__:dense_terms", "Mpo.__init__", "MPO differs from the dense sum of terms", key + ("init",), {}, rep)
         led.check(not S.qnv_violations(H), "post:Mpo.__init__:qn_valid", "Mpo.__init__", "operator labels invalid", key + ("init-qnv",), {}, rep)
         terms2 = U.random_terms(model, rng, 3, complex_factors=True)
-        if terms2:
+        Gd = U.dense_terms(model, terms2) if terms2 else None
+        if terms2 and np.abs(Gd).max() > 1e-12:      # (a term list that cancels to zero is rejected by the constructor: C01's domain)
             G = Mpo(model, terms2)
-            Gd = U.dense_terms(model, terms2)
             P = H.apply(G)
             led.check(close(S.dense(P), Hd @ Gd), "post:Mpo.apply:operator_product", "Mpo.apply", "dense(H G) != dense(H) dense(G)", key + ("HG",), {}, rep)
             led.check(not S.qnv_violations(P), "post:Mpo.apply:operator_product_qn_valid", "Mpo.apply", "labels of H G invalid", key + ("HG-qnv",), {}, rep)
